@@ -19,7 +19,7 @@ FACTORS = {
     "treeprior": [None, "constant", "exponential", "skyride", "skygrid", "piecewise-constant",
                   "piecewise-exponential", "piecewise-linear", "bd-constant", "bd-bdsk"],
     "grid": [None, 4],
-    "cutoff": [None, 8.0],
+    "cutoff": [None, 8.0, 3.0],
     "family": ["meanfield", "fullrank"],            # advi only
     "distribution": ["Normal", "LogNormal", "Gamma"],  # advi only
     "init": [None, "rate_init", "root_height_init", "heights_init_tree", "brlens_init", "coalescent_init",
@@ -27,7 +27,11 @@ FACTORS = {
              "coalescent_non_centered", "coalescent_integrated", "include_jacobian", "coalescent_temperature",
              "disable_time_aware",
              # explicit initial values close to the boundary of the admissible range
-             "root_height_init_low", "rate_init_tiny", "coalescent_init_tiny", "brlens_init_tiny"],
+             "root_height_init_low", "rate_init_tiny", "coalescent_init_tiny", "brlens_init_tiny",
+             # values whose transform is exactly 0 (falsy in Python): log 1
+             "coalescent_init_one", "rate_init_one", "brlens_init_one", "root_height_init_unit",
+             # the documented NON-numeric initialisation modes
+             "heights_init_regression", "rate_init_regression", "coalescent_init_tree", "coalescent_init_constant"],
 }
 
 # the model-defining core enumerated in full in the thorough tier
@@ -37,7 +41,8 @@ CORE = ["cmd", "model", "clock", "heights", "treeprior"]
 def to_argv(cfg, data):
     a = [cfg["cmd"], "-i", str(data / "aln.fa")]
     clock = cfg.get("clock")
-    a += ["-t", str(data / ("rooted.nwk" if clock else "unrooted.nwk"))]
+    regression = cfg.get("init") in ("heights_init_regression", "rate_init_regression")
+    a += ["-t", str(data / (("rooted_subst.nwk" if regression else "rooted.nwk") if clock else "unrooted.nwk"))]
     a += ["-m", cfg.get("model", "JC69")]
     if cfg.get("categories", 1) > 1:
         a += ["-C", str(cfg["categories"])]
@@ -75,6 +80,22 @@ def to_argv(cfg, data):
         a += ["--coalescent_init", "1e-05"]
     elif init == "brlens_init_tiny":
         a += ["--brlens_init", "1e-08"]
+    elif init == "coalescent_init_one":
+        a += ["--coalescent_init", "1"]
+    elif init == "rate_init_one":
+        a += ["--rate_init", "1.0"]
+    elif init == "brlens_init_one":
+        a += ["--brlens_init", "1.0"]
+    elif init == "root_height_init_unit":
+        a += ["--root_height_init", "5.0"]       # oldest-tip offset 4 + 1: the shifted value is 1, its log 0
+    elif init == "heights_init_regression":
+        a += ["--heights_init", "regression"]
+    elif init == "rate_init_regression":
+        a += ["--rate_init", "regression"]
+    elif init == "coalescent_init_tree":
+        a += ["--heights_init", "tree", "--coalescent_init", "tree"]
+    elif init == "coalescent_init_constant":
+        a += ["--heights_init", "tree", "--coalescent_init", "constant"]
     elif init == "heights_init_tree":
         a += ["--heights_init", "tree"]
     elif init == "brlens_init":
@@ -117,11 +138,19 @@ INIT_NEEDS = {
     "rate_init_tiny": lambda c: c["clock"],
     "coalescent_init_tiny": lambda c: c["treeprior"] in ("constant", "exponential"),
     "brlens_init_tiny": lambda c: not c["clock"],
+    "coalescent_init_one": lambda c: c["treeprior"] in ("constant", "exponential", "skyride", "skygrid", "piecewise-constant"),
+    "rate_init_one": lambda c: c["clock"],
+    "brlens_init_one": lambda c: not c["clock"],
+    "root_height_init_unit": lambda c: c["clock"],
+    "heights_init_regression": lambda c: c["clock"],
+    "rate_init_regression": lambda c: c["clock"],
+    "coalescent_init_tree": lambda c: c["clock"] and c["treeprior"] in ("constant", "skyride"),
+    "coalescent_init_constant": lambda c: c["clock"] and c["treeprior"] in ("constant", "exponential"),
     "heights_init_tree": lambda c: c["clock"],
     "brlens_init": lambda c: not c["clock"],
     "keep": lambda c: True,
     "brlenspr_gammadir": lambda c: not c["clock"],
-    "coalescent_init": lambda c: c["treeprior"] in ("constant", "exponential"),
+    "coalescent_init": lambda c: c["treeprior"] in ("constant", "exponential", "skyride", "skygrid", "piecewise-constant"),
     "gmrf_integrated": lambda c: c["treeprior"] in ("skyride",) + COALESCENT_GRID,
     "coalescent_non_centered": lambda c: c["treeprior"] in ("skyride",) + COALESCENT_GRID,
     "coalescent_integrated": lambda c: c["treeprior"] == "constant",
@@ -143,7 +172,7 @@ def normalise(cfg):
         c["treeprior"] = None
     tp = c.get("treeprior")
     if tp in COALESCENT_GRID:
-        c["grid"], c["cutoff"] = 4, 8.0
+        c["grid"], c["cutoff"] = 4, (c.get("cutoff") or 8.0)
     elif tp == "bd-bdsk":
         c["cutoff"] = None
     else:
@@ -194,6 +223,22 @@ def core_lite():
                         yield {"cmd": cmd, "model": "HKY", "categories": 1, "invariant": False, "clock": clock,
                                "heights": heights, "treeprior": tp, "grid": None, "cutoff": None, "family": "meanfield",
                                "distribution": "Normal", "init": init}
+    # every initialisation switch/mode, on the configurations it concerns
+    base = {"model": "JC69", "categories": 1, "invariant": False, "grid": None, "cutoff": None, "family": "meanfield",
+            "distribution": "Normal"}
+    for cmd in ("hmc", "advi"):
+        for init in FACTORS["init"]:
+            if init is None:
+                continue
+            for clock, heights, tp in ((None, "ratio", None), ("strict", "ratio", "constant"), ("strict", "shift", "constant"),
+                                       ("strict", "ratio", "skyride"), ("strict", "ratio", "skygrid"),
+                                       ("strict", "ratio", "exponential")):
+                c = dict(base, cmd=cmd, clock=clock, heights=heights, treeprior=tp, init=init)
+                if INIT_NEEDS[init](c):
+                    yield c
+    for cmd in ("hmc", "mcmc"):
+        for cutoff in (8.0, 3.0):
+            yield dict(base, cmd=cmd, clock="strict", heights="ratio", treeprior="skygrid", cutoff=cutoff, init=None)
 
 
 def core_product():
